@@ -6,6 +6,7 @@
 From Coq Require Import ZArith NArith List Bool Lia ZifyBool ZifyN.
 Require Import Webob.Lib.Val Webob.Lib.PyStr Webob.Lib.Rx Webob.Gen.C03_regexes Webob.Spec.C03_abnf
                Webob.Proofs.C03_lang Webob.Model.C03_scan Webob.Proofs.C03_scan Webob.Proofs.C03_accept_scan
+               Webob.Proofs.C03_accept_complete
                Webob.Model.C19_acceptstr Webob.Spec.C19_spec Webob.Proofs.C19_quote Webob.Proofs.C19_local Webob.Proofs.C19_valid
                Webob.Proofs.C19_simple Webob.Proofs.C19_accept_scan Webob.Proofs.C19_add.
 Import ListNotations.
@@ -285,3 +286,44 @@ Theorem accept_rendered_stable j0 els : all_junk j0 -> rels_ok els ->
 Proof.
   intros Hj Hels. split; [apply ok_rendered; assumption|]. intros V. apply accept_wf_rendered; assumption.
 Qed.
+
+(* ---------- every VALID Accept text is comma-stable (C03: every accepted value is a rendering) ---------- *)
+Theorem valid_ok_accept w : rmatch gen_accept w = true -> ok_accept w.
+Proof.
+  intros V. apply (valid_abnf _ _ _ accept_eq nolf_accept) in V.
+  destruct (accept_is_render w V) as (j0 & els & Hj & Hels & ->). apply ok_rendered; assumption.
+Qed.
+Lemma parse_ok_accept t p : parse_accept t = Some p -> ok_accept t.
+Proof. intros H. apply parse_accept_scanA in H as [V _]. apply valid_ok_accept, V. Qed.
+
+Theorem accept_join_full a b pa pb :
+  parse_accept a = Some pa -> parse_accept b = Some pb -> a <> [] -> b <> [] ->
+  parse_accept (a ++ comma_sp ++ b) = Some (pa ++ pb).
+Proof.
+  intros Ha Hb Hane Hbne.
+  apply (accept_join a b pa pb (parse_ok_accept a pa Ha) (parse_ok_accept b pb Hb) Ha Hb Hane Hbne).
+Qed.
+
+Lemma wf_all_to_ok h : wf_hdr fam_accept all_ok h -> wf_hdr fam_accept ok_accept h.
+Proof. destruct h as [|t|t p]; try exact (fun H => H). intros [Hp _]. split; [exact Hp|exact (parse_ok_accept t p Hp)]. Qed.
+Lemma wf_ok_to_all h : wf_hdr fam_accept ok_accept h -> wf_hdr fam_accept all_ok h.
+Proof. destruct h as [|t|t p]; try exact (fun H => H). intros [Hp _]. split; [exact Hp|exact I]. Qed.
+
+Theorem accept_add_val_full self v right : wf_hdr fam_accept all_ok self ->
+  exists h, add_val fam_accept self v right = Ret h /\ wf_hdr fam_accept all_ok h /\
+            elements h = if right then contrib fam_accept v ++ elements self else elements self ++ contrib fam_accept v.
+Proof.
+  intros Hs. destruct (accept_add_val self v right (wf_all_to_ok self Hs)) as (h & E & Hw & He).
+  - intros po Hpo. exact (parse_ok_accept _ po Hpo).
+  - exists h. split; [exact E|]. split; [apply wf_ok_to_all, Hw|exact He].
+Qed.
+
+Theorem accept_add_hdr_full self other : wf_hdr fam_accept all_ok self -> wf_hdr fam_accept all_ok other ->
+  exists h, add_hdr fam_accept self other = Ret h /\ wf_hdr fam_accept all_ok h /\ elements h = elements self ++ elements other.
+Proof.
+  intros Hs Ho. destruct (accept_add_hdr self other (wf_all_to_ok self Hs) (wf_all_to_ok other Ho)) as (h & E & Hw & He).
+  exists h. split; [exact E|]. split; [apply wf_ok_to_all, Hw|exact He].
+Qed.
+
+Theorem accept_create_wf h : wf_hdr fam_accept all_ok (create parse_accept h).
+Proof. apply (create_wf_ok fam_accept all_ok). intros; exact I. Qed.
